@@ -1,7 +1,7 @@
 """./check --selftest <Cxx|all>: run the property checks against the seeded breaking changes under /verif/seeded.
 Each seeded/<name>/ holds patch.diff (relative to the repository root), demo.py and meta.json {"property": ...}.
 The change is applied to a scratch copy of $DENDROPY_REPO/src (never to /repo), the check runs with DENDROPY_REPO
-pointing at the copy, and exit 1 with a VIOLATION line is expected.  Results go to evidence/selftest.json."""
+pointing at the copy, and exit 1 with a VIOLATION line is expected.  Results go to seeded/RESULTS.json."""
 import glob
 import json
 import os
@@ -61,7 +61,7 @@ def run(which, tier):
     with leanio.lock():
         leanio.regenerate()
     os.makedirs(EVIDENCE_DIR, exist_ok=True)
-    path = os.path.join(EVIDENCE_DIR, "selftest.json")
+    path = os.path.join(VERIF, "seeded", "RESULTS.json")
     old = {}
     if os.path.exists(path):
         try:
